@@ -526,6 +526,10 @@ class SigmaTimestampModifier(SigmaValueModifier[SigmaNumber, SigmaTimestampPart]
     time_part_unit: ClassVar[TimestampPart]
 
     def modify(self, val: SigmaNumber) -> SigmaTimestampPart:
+        if val.number != int(val.number):
+            raise SigmaValueError(
+                "Timestamp part modifiers require an integer value", source=self.source
+            )
         return SigmaTimestampPart(self.time_part_unit, int(val.number))
 
 
